@@ -267,6 +267,41 @@ def big_plains(rng, quick):
     return out
 
 
+def deep_table_plains(quick=True):
+    """inputs whose first coding groups use a 20-deep (length-limited) prefix table in which RUNA is an unused symbol of length 18/19:
+    records <payload byte> 0x00 <counter digits>; the counter makes the rotations starting with 0x00 sort in record order, so the BWT
+    output starts with the payload bytes in the chosen order; the payloads are produced by running a move-to-front list backwards from
+    ranks 1..20 with geometric frequencies (never rank 0).  The padding rule of transmit() for the first table is exercised with a
+    starting length near the 20-bit limit; extra records vary the block's bit length (the padding residue)."""
+    out = []
+    variants = [(21, 1.75, 0.3, 0), (21, 1.75, 0.3, 1), (21, 1.75, 0.3, 2), (21, 1.75, 0.3, 3)]
+    if not quick:
+        variants += [(21, 1.75, 1.0, 0), (21, 1.8, 0.2, 1), (21, 1.7, 0.5, 2), (20, 1.75, 0.4, 0), (21, 1.75, 0.3, 5), (21, 1.75, 0.3, 7)]
+    for K, ratio, scale, extra in variants:
+        ranks = []
+        for r in range(1, K):
+            ranks += [r] * max(1, int(scale * ratio ** (K - 1 - r)))
+        rng = vlib.SplitMix(K * 1000 + int(ratio * 100) + extra)
+        ranks = rng.shuffle(ranks)
+        lst = list(range(1, K + 1))
+        d0, ndig, radix = K + 1, 6, 8
+        buf = bytearray()
+        for i, r in enumerate(ranks + [1] * extra):
+            c = lst.pop(r)
+            lst.insert(0, c)
+            buf.append(c)
+            buf.append(0)
+            v, digs = i, []
+            for _ in range(ndig):
+                digs.append(v % radix)
+                v //= radix
+            digs.reverse()
+            for q, dg in enumerate(digs):
+                buf.append(d0 + q * radix + dg)
+        out.append(bytes(buf))
+    return out
+
+
 def maxgroups_plain():
     """900000 bytes whose single level-9 block carries 900000 MTF symbols + EOB = 18001 coding groups (the format's maximum):
     no four equal adjacent input bytes and no two adjacent zero MTF ranks after the BWT.  Deterministic; cached under .work/cache."""
